@@ -32,7 +32,9 @@ RULE = ('failure sets enumerated: every subset of failing positions for streams 
         'sources); batched apply / assign with failing batches; random C08 chains with one fail_on operator; num_threads=2 '
         '(multisets); resumable failing SOURCES that do not skip by themselves (SequenceDataSource: shardable; a user iterator '
         'class: one un-sharded source behind the _ThreadSafeIterator wrapper) x every non-empty failure set x num_threads 0/1/2 '
-        '(num_threads=1: compared in order).  non-trivial = at least one element fails and at least one survives')
+        '(num_threads=1: compared in order), first operator of every kind (assign / filter / sink first: the class of the '
+        'repaired F-C12-passed-on); skippable routing errors passed on between operators (every subset of records whose '
+        'output routing fails x the kind of the next operator).  non-trivial = at least one element fails and at least one survives')
 
 N, P = G.N, G.P
 
@@ -119,13 +121,43 @@ def source_cases(ctx):
             yield c08.mk_case(copy.deepcopy(ops), recs(n), ignore=False, kind='gen', fail=fail[:1], tag='source:gen')
 
 
+def passed_on_cases(ctx):
+  """Skippable errors that are PASSED ON between operators (the input class of the repaired finding F-C12-passed-on
+  that does not come from the data source): `apply(ident, 'a', output_keys=('x', 'y'))` routes a 2-tuple and raises
+  ValueError (zip strict, in the UNGUARDED `_get_outputs` map) for an int — for every subset of such records, in front
+  of every operator kind (+ one more operator), skipping on / off, num_threads 0 / 1.  The English reference does not say
+  whether a routing error is skippable (`undefined`), so these cases bind through the model correspondence: the repaired
+  code skips the record in front of every operator kind (`C12_skip_any_partial`: `Ref.chainEventsS`)."""
+  nmax = 4 if ctx.quick else 6
+  route = {'op': 'apply', 'fn': {'f': 'ident'}, 'in': {'one': N('a')}, 'out': {'many': [N('x'), N('y')]}}
+  nexts = {
+      'assign': [{'op': 'assign', 'fn': {'f': 'neg'}, 'in': {'one': N('x')}, 'keys': {'one': N('h')}}],
+      'filter': [{'op': 'filter', 'fn': {'f': 'is_even'}, 'in': {'one': N('x')}}],
+      'sink': [{'op': 'sink', 'fn': {'f': 'counter'}, 'in': {'kw': [['x', N('y')]]}, 'is_sink': True}],
+      'apply': [{'op': 'apply', 'fn': {'f': 'add1'}, 'in': {'one': N('x')}, 'out': {'one': N('h')}}],
+      'select': [{'op': 'select', 'in': {'many': [N('y'), N('x')]}}],
+  }
+  i = 0
+  for nxt, ops in nexts.items():
+    for n in range(1, nmax + 1):
+      for s in subsets(n):
+        i += 1
+        items = [G.wd(a=(j if j in s else {'t': [j, 10 * j]})) for j in range(n)]
+        after = copy.deepcopy(AFTER['counter']) if i % 2 else []
+        if after:
+          after[0]['in'] = {'one': N('x')} if nxt not in ('apply',) else {'one': N('h')}
+        ignore = i % 5 != 0
+        yield c08.mk_case([copy.deepcopy(route)] + copy.deepcopy(ops) + after, items, ignore=ignore,
+                          threads=1 if i % 7 == 0 else 0, tag=f'passed-on:{nxt}')
+
+
 def threaded_source_cases(ctx):
   """Failing SOURCES (not failing functions) that can be read further after a failing read, under num_threads 0 / 1 / 2:
   the library's shardable `SequenceDataSource` (num_threads=1: one shard behind the `_ThreadSafeIterator` lock wrapper;
   num_threads=2: two shards) and an un-shardable user iterator class (always ONE source shared by the worker threads
   through the wrapper); every non-empty set of failing positions of streams of 2..4 (quick) records; the source does
-  not skip by itself, the runner does (or does not: the first error surfaces); the first operator is an `apply` / `select`
-  (an `assign` / `filter` / `sink` in that position is the input class of finding F-C12-passed-on)."""
+  not skip by itself, the runner does (or does not: the first error surfaces); the first operator is of every kind
+  (`assign` / `filter` / `sink` in that position: the input class of the REPAIRED finding F-C12-passed-on)."""
   nmax = 4 if ctx.quick else 6
   i = 0
   firsts = {'apply': AFTER['apply'], 'select': [{'op': 'select', 'in': {'many': [N('a'), N('b')]}}],
@@ -183,6 +215,7 @@ def gen_cases(ctx):
   yield from counted(source_cases(ctx), 'source')
   yield from counted(batched_cases(ctx), 'batched')
   yield from counted(threaded_source_cases(ctx), 'tsource')
+  yield from counted(passed_on_cases(ctx), 'passed-on')
 
   def rand(n):
     for _ in range(n):
@@ -216,7 +249,8 @@ def extra(ctx):
     ctx.extra_disagreements.append(('skippable-types', None, dict(
         why=f'iter_utils._IGNORE_ERROR_TYPES is {got}, the model (Iter.Err.ignorable) assumes {L.SKIPPABLE}')))
   need = ['op:apply', 'op:assign', 'op:filter', 'op:sink', 'source:apply', 'source:assign', 'batched:apply', 'batched:assign',
-          'random', 'threads'] + [f'tsource:{k}:t{t}' for k in ('seq', 'iter') for t in (0, 1, 2)]
+          'random', 'threads', 'source-noskip:assign', 'source-noskip:filter', 'source-noskip:sink', 'passed-on:assign',
+          'passed-on:filter', 'passed-on:sink'] + [f'tsource:{k}:t{t}' for k in ('seq', 'iter') for t in (0, 1, 2)]
   missing = [c for c in need if c not in ctx.hist.get('class', {})]
   if missing:
     raise InfraError(f'generator missed promised classes: {missing}')
@@ -235,6 +269,8 @@ compare = c08.compare
 
 def n_failing(case):
   n = len([1 for i, k in case['src'].get('fail', [])])
+  if case.get('tag', '').startswith('passed-on:'):
+    n += sum(1 for x in case['src']['items'] if isinstance(x['d']['a'], int))
   vals = {dec_a(x) for x in case['src']['items']}
   for sp in case['specs']:
     fn = sp.get('fn') or {}
@@ -247,7 +283,8 @@ def n_failing(case):
 
 def dec_a(x):
   try:
-    return x['d']['a']
+    a = x['d']['a']
+    return a if isinstance(a, int) else None
   except Exception:  # pylint: disable=broad-except
     return x if isinstance(x, int) else None
 
@@ -281,8 +318,6 @@ def finding(case, what):
   if case.get('ignore') and any(sp['op'] == 'assign' and sp.get('batch') and (sp.get('fn') or {}).get('f') == 'v_fail_on'
                                 for sp in specs) and not c08.assign_misaligned(case):
     return 'F5'
-  if source_passes_skippable(case) and specs and specs[0]['op'] in ('assign', 'filter', 'sink'):
-    return 'F-C12-passed-on'
   if what.startswith('[sink] a sink was written after') and case.get('threads'):
     return 'F-C08-sink-threads'
   if c08.assign_misaligned(case):
